@@ -12,6 +12,8 @@ LineOk(e) == /\ e.out = "ok" /\ e.inputsame
              /\ SimplicityOK(cs.curve, e.res)
 PolyOk(e) == /\ e.out = "ok" /\ e.inputsame /\ Len(e.res) = Len(cs.rings)
              /\ \A r \in 1..Len(cs.rings) : SimplifyOK(cs.rings[r], cs.tol2, e.res[r], TRUE)
+PolyOpenOk(e) == /\ e.out = "ok" /\ e.inputsame /\ Len(e.res) = Len(cs.rings)
+                 /\ \A r \in 1..Len(cs.rings) : SimplifyOK(cs.rings[r], cs.tol2, e.res[r], FALSE)
 MultiOk(e) == /\ e.out = "ok" /\ e.inputsame /\ Len(e.res) = Len(cs.lines)
               /\ \A m \in 1..Len(cs.lines) : /\ SimplifyOK(cs.lines[m], cs.tol2, e.res[m], FALSE)
                                              /\ e.res[m] = e.solo[m]        \* members are simplified independently
@@ -22,6 +24,7 @@ MPolyOk(e) == /\ e.out = "ok" /\ e.inputsame /\ Len(e.res) = Len(cs.polys)
 Ok(e) == e.ev = "simplify" /\ CASE cs.kind = "line" -> LineOk(e)
                                 [] cs.kind = "mpoly" -> MPolyOk(e)
                                 [] cs.kind = "poly" -> PolyOk(e)
+                                [] cs.kind = "polyopen" -> PolyOpenOk(e)
                                 [] cs.kind = "multi" -> MultiOk(e)
                                 [] OTHER -> FALSE
 (* conformance of the code to the R2 transcription (Simplify.tla run to completion inside TLC): counted, never decisive *)
